@@ -81,6 +81,36 @@ def observe(obj, name, via):
     return canon(getattr(sp, name)())
 
 
+def foreign_call(obj, what, kind):
+    """Write a dataset built AROUND the object's own buffers (no copy on the harness side) or run a fit on another object; the
+    outcome is discarded and errors are ignored — only what the call leaves behind matters."""
+    import shutil
+    import tempfile
+    import xarray as xr
+
+    try:
+        if what.startswith("fit_"):
+            f = np.array([0.05, 0.07, 0.09, 0.11, 0.14, 0.18, 0.23, 0.3])
+            S = np.exp(-0.5 * ((f - 0.11) / 0.03) ** 2) + 0.01
+            other = xr.DataArray(S[:, None] * np.ones((1, 4)), dims=("freq", "dir"), coords={"freq": f, "dir": np.arange(4) * 90.0}, name="efth")
+            getattr(other.spec, what)()
+            return
+        ds = obj if isinstance(obj, xr.Dataset) else obj.to_dataset(name="efth")
+        if "time" not in ds.dims:
+            ds = ds.expand_dims(time=np.array(["2021-01-01T00"], dtype="datetime64[ns]"))
+        ds = ds.expand_dims(site=[1])
+        ds["lon"] = (("site",), np.array([170.5]))
+        ds["lat"] = (("site",), np.array([-35.25]))
+        ds = ds.transpose("time", "site", "freq", "dir")
+        tmp = tempfile.mkdtemp(prefix="c18w_")
+        try:
+            getattr(ds.spec, what)(os.path.join(tmp, "out." + ("nc" if what in ("to_ww3", "to_netcdf") else "txt")))
+        finally:
+            shutil.rmtree(tmp, ignore_errors=True)
+    except Exception:
+        pass
+
+
 def observe_reader(conv, key):
     """read_dataset on a freshly generated dataset in the `conv` layout (deterministic in `key`)."""
     import random
@@ -211,6 +241,8 @@ def make_history(args):
     freq, _ = gen.gen_freq(rng, nf, kind="irregular")
     dirs0, _ = gen.gen_dirs(rng, nd, order="sorted")
     def newE():
+        if rng.random() < 0.05:
+            return np.zeros((nt, nf, nd)) if nt else np.zeros((nf, nd))  # calm: statistics are NaN, numpy warns
         if rng.random() < 0.12:
             # a flat (constant, non-zero) spectrum: the watershed's early-return path
             c = rng.choice([0.5, 2.0, 3.0])
@@ -329,6 +361,12 @@ def make_history(args):
                 results.append(None)
             except Exception as e:
                 results.append(f"EXC {type(e).__name__}")
+        elif r < 0.925:
+            # a call whose result is thrown away: writing the object to a file, or a curve fit on some other object
+            what = rng.choice(["to_ww3", "to_swan", "to_netcdf", "to_json", "fit_jonswap", "fit_gaussian"])
+            ops.append(f"fo:{what}")
+            foreign_call(obj, what, kind)
+            results.append(None)
         elif r < 0.94:
             ops.append("rd")
             read_swan(str(REPO / "tests/sample_files/swanfile.spec"))
@@ -378,9 +416,9 @@ def run_check():
                     ck.disagree("history", f"model response {pred} for reader observation {v}", dict(case, step=i))
                 fresh_jobs.append((dict(reader=h["rvers"][v]["conv"], key=h["rvers"][v]["key"]), res, "read_dataset", dict(case, step=i, reader=h["rvers"][v])))
                 continue
-            if kindop in ("ee", "ad", "af", "pt", "al", "rd", "us"):
+            if kindop in ("ee", "ad", "af", "pt", "al", "rd", "us", "fo"):
                 if kindop != "us" or res is None:
-                    edits_before = edits_before or kindop in ("ee", "ad", "af", "pt", "al")
+                    edits_before = edits_before or kindop in ("ee", "ad", "af", "pt", "al", "fo")
                 if isinstance(res, str):
                     ck.fail("stats(unknown)", f"unknown statistic name: {res} (expected ValueError)", dict(case, step=i), "unknown_stat_not_valueerror")
                 continue
